@@ -203,7 +203,7 @@ def run(prop, tier):
     unc = [u for u in rep['uncovered'] if u not in core.HANDWRAPPED]
     core.finish(prop, tier, t0, res, rule=rule, bounds=bounds, assumptions=ASSUME,
                 recipe={'engine': 'fields', 'suite': prop, 'tier': tier}, replayer=make_replayer(exe, tier),
-                extra_cov={'planted_bug_selftest': 'wrong spec row for Can.pad: %d mismatches reported, as required' % planted, 'formats': rep['formats'], 'fields': rep['fields'], 'uncovered_accessors': unc})
+                extra_cov={'planted_bug_selftest': 'wrong spec row for Can.pad: %d mismatches reported, as required' % planted, 'formats': rep['formats'], 'fields': rep['fields'], 'uncovered_accessors': unc, 'formats_called_with_typed_pointers_only': rep.get('typed_only', [])})
 
 
 def replay(prop, case):
